@@ -1,5 +1,6 @@
 import Avfs.Path.Spec
 import Avfs.Lemmas.Clean
+import Avfs.Lemmas.PathMore
 /-
   C13 — lexical path functions equal path/filepath of the emulated OS.
   Subject: Avfs.Path (transliteration of vfs_ostype_on.go / vfs.go / pathiterator.go), tied to /repo by
@@ -21,6 +22,56 @@ theorem C13_join_eq_spec (es : List Bytes) : join .linux es = Spec.join es := jo
 /-- Split: `dir ++ file = path`, for every byte string, on both OS types. -/
 theorem C13_split_append (os : OS) (p : Bytes) : (split os p).1 ++ (split os p).2 = p := by
   simp [split]
+
+/-- Split on Linux equals the reference (dir ends at the last '/', file has no '/'). -/
+theorem C13_split_eq_spec (p : Bytes) : split .linux p = Spec.split p := split_eq_spec p
+
+theorem C13_split_file_nosep (p : Bytes) : ∀ c ∈ (split .linux p).2, c ≠ SL := split_file_nosep p
+
+/-- Base and Dir on Linux equal the reference, for every byte string. -/
+theorem C13_base_eq_spec (p : Bytes) : base .linux p = Spec.base p := base_eq_spec p
+
+theorem C13_dir_eq_spec (p : Bytes) : dir .linux p = Spec.dir p := dir_eq_spec p clean_eq_spec
+
+/-- Abs on Linux: Clean of an absolute path, Join with the current directory otherwise, in reference terms. -/
+theorem C13_abs_eq_spec (p cur : Bytes) :
+    abs .linux p cur = if Spec.isAbs p then Spec.clean p else Spec.join [cur, p] := by
+  unfold abs
+  rw [clean_eq_spec, join_eq_spec]
+  cases p <;> simp [isAbs, Spec.isAbs, Spec.isRooted]
+
+/-- ToSlash ∘ FromSlash is the identity on Windows for strings without '\'. -/
+theorem C13_toSlash_fromSlash_windows (p : Bytes) (h : ∀ c ∈ p, c ≠ BS) :
+    toSlash .windows (fromSlash .windows p) = p := toSlash_fromSlash_windows p h
+
+/-- Match never panics, on either OS type, for every pattern and name (all index expressions are in range). -/
+theorem C13_match_no_panic (os : OS) (pat name : Bytes) : pmatch os pat name ≠ .panic := pmatch_no_panic os pat name
+
+/-- SplitAbs never panics on an absolute path. -/
+theorem C13_splitAbs_abs_linux (p : Bytes) (h : isAbs .linux p = true) : (splitAbs .linux p).isSome = true :=
+  splitAbs_abs_linux p h
+
+/-- PathIterator: after every successful Next, Left ++ Part ++ Right reassembles the path, the path is unchanged
+    and the part contains no separator. -/
+theorem C13_iter_reassemble (it it' : Iter) (h : it.next .linux = (it', true)) (hs : it.stop1 ≤ it.path.length + 1) :
+    ∃ l pt r, it'.left = some l ∧ it'.part = some pt ∧ it'.right = some r ∧ l ++ pt ++ r = it'.path ∧
+      it'.path = it.path ∧ (∀ c ∈ pt, c ≠ SL) := iter_next_reassemble it it' h hs
+
+/-- PathIterator over an absolute clean path yields exactly its separator-delimited parts, in order. -/
+theorem C13_iter_parts (cs : List Bytes) (p : Bytes) (hcs : cs ≠ [])
+    (hall : ∀ c ∈ cs, c ≠ [] ∧ ∀ x ∈ c, x ≠ SL) (hp : p = SL :: joinWith SL cs) :
+    iterParts .linux (p.length + 1) (Iter.new .linux p) = cs := iter_parts cs p hcs hall hp
+
+theorem C13_iter_parts_root : iterParts .linux ([SL].length + 1) (Iter.new .linux [SL]) = [] := iter_parts_root
+
+/-- ReplacePart: the new path is the Join of the pieces; without reset the walked prefix is unchanged and the next
+    part starts at `start`. -/
+theorem C13_replacePart (it : Iter) (np : Bytes) (it' : Iter) (rs : Bool)
+    (h : it.replacePart .linux np = some (it', rs)) :
+    (∃ l r, it.left = some l ∧ it.right = some r ∧
+      it'.path = (if isAbs .linux np then join .linux [np, r] else join .linux [l, np, r])) ∧
+    (rs = false → it'.path.take it.start = it.path.take it.start ∧ it'.stop1 = it.start) :=
+  replacePart_path it np it' rs h
 
 /-- IsAbs on Linux: exactly the paths that start with '/'. -/
 theorem C13_isAbs_linux (p : Bytes) : isAbs .linux p = Spec.isAbs p := by
